@@ -113,15 +113,25 @@ def _tot(t, p):
     return sum(len(v) for o, v in t.get(p, {}).items() if not o.startswith("ins"))
 
 
-def filtered_table(gene, prof, raw, cnsol, keep=None):
+def filtered_table(gene, prof, raw, cnsol, keep=None, indels=None):
     """Independent re-computation of the two-step evidence filter (quality filter, then the
     min_coverage / threshold test against cn_max and against copies-at-position + 0.5).
-    keep(pos, op) -> False drops a non-reference entry up front (minor stage region rule)."""
-    t1 = {p: {o: v for o, v in ops.items() if v} for p, ops in quality_filter(raw, prof).items()}
+    keep(pos, op) -> False drops a non-reference entry up front (minor stage region rule).
+    indels: optional re-alignment table {(pos, op): (reads not supporting, reads supporting)} as the BAM route builds it: insertions
+    then come from the table only, a listed indel is counted by its supporting reads and scaled by supporting + not supporting.
+    With a table the surviving entries are returned as third value."""
+    t1 = {p: {o: v for o, v in ops.items() if v and not (indels and o.startswith("ins"))} for p, ops in quality_filter(raw, prof).items()}
+    I = {k: v for k, v in (indels or {}).items() if v[1]}
 
     def pcn(p):
         r = gene.region_at(p)
         return cnsol.region_cn[r[0]][r[1]] if r else 0
+
+    def passes(p, o, n, tot):
+        ok = n >= max(prof.min_coverage, tot * prof.threshold / prof.cn_max)
+        if o != "_":
+            ok = ok and n >= max(prof.min_coverage, tot * prof.threshold / (pcn(p) + 0.5))
+        return ok
 
     t2 = {}
     for p, ops in t1.items():
@@ -129,34 +139,52 @@ def filtered_table(gene, prof, raw, cnsol, keep=None):
         for o, v in ops.items():
             if o != "_" and keep is not None and not keep(p, o):
                 continue
-            ok = len(v) >= max(prof.min_coverage, _tot(t1, p) * prof.threshold / prof.cn_max)
-            if o != "_":
-                ok = ok and len(v) >= max(prof.min_coverage, _tot(t1, p) * prof.threshold / (pcn(p) + 0.5))
-            if ok:
+            n, tot = (I[p, o][1], sum(I[p, o])) if (p, o) in I else (len(v), _tot(t1, p))
+            if passes(p, o, n, tot):
                 t2[p][o] = v
-    return t2, pcn
+    if indels is None:
+        return t2, pcn
+    I2 = {k: v for k, v in I.items() if (keep is None or keep(*k)) and passes(k[0], k[1], v[1], sum(v))}
+    return t2, pcn, I2
 
 
 # =============================================================================================== R-MAJ
-def rmaj(gene, prof, raw, cnsol, limit=200000):
+def _view(t2, I2):
+    """Filtered table with the surviving re-alignment entries materialised as lists of their supporting-read count (for counting)."""
+    if not I2:
+        return t2
+    v = {p: dict(ops) for p, ops in t2.items()}
+    for (p, o), (off, on) in I2.items():
+        v.setdefault(p, {})[o] = [(60, 60)] * on
+    return v
+
+
+def rmaj(gene, prof, raw, cnsol, limit=200000, indels=None):
     """-> (candidates, {(alleles tuple, novel tuple): score}) or (None, {}) when some configuration of the
     structure has no candidate allele; raises OverflowError beyond `limit` multisets."""
     from aldy.gene import Mutation
 
-    t2, pcn = filtered_table(gene, prof, raw, cnsol)
+    if indels is None:
+        t2, pcn = filtered_table(gene, prof, raw, cnsol)
+        I2 = {}
+    else:
+        t2, pcn, I2 = filtered_table(gene, prof, raw, cnsol, indels=indels)
 
     def cnt(p, o):
+        if (p, o) in I2:
+            return I2[p, o][1]
         return len(t2.get(p, {}).get(o, []))
 
     cands = {an: a for an, a in gene.alleles.items()
              if a.cn_config in cnsol.solution and all(cnt(m.pos, m.op) > 0 for m in a.func_muts)}
     if set(cnsol.solution) - set(a.cn_config for a in cands.values()):
-        return None, {}, t2
+        return None, {}, _view(t2, I2)
     F = [Mutation(*m) for m in gene.mutations if gene.is_functional(m) and cnt(m[0], m[1]) > 0]
 
-    def single(p):
+    def single(p, o=None):
         c = pcn(p)
-        return 0 if c == 0 else max(1, _tot(t2, p)) / c
+        tot = sum(I2[p, o]) if (p, o) in I2 else _tot(t2, p)
+        return 0 if c == 0 else max(1, tot) / c
 
     per = []
     size = 1
@@ -175,7 +203,7 @@ def rmaj(gene, prof, raw, cnsol, limit=200000):
             continue
         err = 0.0
         for m in F:
-            s = single(m.pos)
+            s = single(m.pos, m.op)
             c = cnt(m.pos, m.op) / s if s else 0.0
             err += abs(c - sum(1 for a in sel if m in cands[a].func_muts) - (1 if m in novel else 0))
         for p in set(m.pos for m in F):
@@ -186,7 +214,7 @@ def rmaj(gene, prof, raw, cnsol, limit=200000):
             err += abs(c - e)
         score = err + (prof.major_novel if novel else 0) + 0.1 * len(novel)
         out[(tuple(sorted(sel)), tuple(sorted(novel)))] = score
-    return cands, out, t2
+    return cands, out, _view(t2, I2)
 
 
 # =============================================================================================== R-MIN
